@@ -530,3 +530,7 @@ impl Modeled for TransSkip {
 		2
 	}
 }
+
+/// Finding F5: a type cycle that consumes no input per level (no values; decoding never returns).
+#[derive(Encode, Decode)]
+pub struct Inf(pub Box<Inf>);
